@@ -71,9 +71,27 @@ def h_hull(cx, sp):
         cx.eq('only_active_points[%d]' % d, pt[d], comb)
 
 
-def h_ends(cx, sp):
+def h_ends(cx, sp, caller_edit=False):
     obj, info = shapes.build(cx, sp, normalize_kv=False)
     sizes, P = info['sizes'], info['P']
+    if caller_edit:
+        # the control net is replaced through the `ctrlpts` property and the caller goes on editing ITS list: whatever
+        # the library kept (a copy or the list itself), the control-point view, the bounding box and the evaluated
+        # corners must still describe one and the same shape
+        L = [[cx.const(F((5 * i + 3 * d) % 7 - 3)) for d in range(sp['dim'])] for i in range(len(P))]
+        L[0][0] = cx.real('Qa')          # (a fully symbolic net makes the min/max search of bbox fork over all orders)
+        L[-1][sp['dim'] - 1] = cx.real('Qb')
+        obj.ctrlpts = L
+        D = cx.reals('D', sp['dim'])
+        for q in L:
+            for d in range(sp['dim']):
+                q[d] = q[d] + D[d]
+        P = [list(q) for q in obj.ctrlpts]
+        lo, hi = obj.bbox
+        for d in range(sp['dim']):
+            for j in range(len(P)):
+                cx.ge('bbox_min<=ctrlpts[%d][%d]' % (j, d), P[j][d], lo[d])
+                cx.ge('bbox_max>=ctrlpts[%d][%d]' % (j, d), hi[d], P[j][d])
     dom = shapes.domain(obj)
     nd = len(sizes)
     for corner in product(*[(0, 1)] * nd):
@@ -112,6 +130,38 @@ def h_bbox(cx, n, dim, via, nsym=2):
             cx.ge('max>=P[%d][%d]' % (i, d), hi[d], P[i][d])
         cx.check('min_attained[%d]' % d, any(cx.holds(lo[d] == P[i][d]) for i in range(n)))
         cx.check('max_attained[%d]' % d, any(cx.holds(hi[d] == P[i][d]) for i in range(n)))
+
+
+def h_grid_bbox(cx, degs, ms, ss, rng):
+    """every point of a sampled segment / sub-rectangle (start > stop: swept backwards) lies inside the reported
+    bounding box and the first / last samples are the segment ends"""
+    sp = spec('curve' if len(degs) == 1 else 'surface', degs, ms, rational=False, dim=2)
+    kvs = sp['kvs']
+    sizes = [len(k) - d - 1 for k, d in zip(kvs, degs)]
+    n = sizes[0] * (sizes[1] if len(sizes) > 1 else 1)
+    P = [[cx.const(F((5 * i + 3 * d) % 7 - 3)) for d in range(2)] for i in range(n)]
+    P[1] = cx.reals('Sa', 2)
+    P[n - 2][1] = cx.real('Sb')
+    Ks = [cx.consts(k) for k in kvs]
+    if len(degs) == 1:
+        obj = geo.make_curve(cx, degs[0], Ks[0], P, None)
+        obj.sample_size = ss
+        obj.evaluate(start=cx.const(rng[0]), stop=cx.const(rng[1]))
+        ends = [obj.evaluate_single(cx.const(rng[0])), obj.evaluate_single(cx.const(rng[1]))]
+    else:
+        obj = geo.make_surface(cx, degs[0], degs[1], Ks[0], Ks[1], sizes[0], sizes[1], P, None)
+        obj.sample_size_u = obj.sample_size_v = ss
+        obj.evaluate(start_u=cx.const(rng[0]), stop_u=cx.const(rng[1]), start_v=cx.const(rng[2]), stop_v=cx.const(rng[3]))
+        ends = [obj.evaluate_single((cx.const(rng[0]), cx.const(rng[2]))), obj.evaluate_single((cx.const(rng[1]), cx.const(rng[3])))]
+    pts = obj.evalpts
+    cx.check('samples', len(pts) == (ss if len(degs) == 1 else ss * ss), '%d samples' % len(pts))
+    cx.eq('first_sample', pts[0], ends[0])
+    cx.eq('last_sample', pts[-1], ends[1])
+    lo, hi = obj.bbox
+    for k, pt in enumerate(pts):
+        for d in range(2):
+            cx.ge('sample>=bbox_min[%d][%d]' % (k, d), pt[d], lo[d])
+            cx.ge('sample<=bbox_max[%d][%d]' % (k, d), hi[d], pt[d])
 
 
 def h_length(cx, p, m, ss, upper, lo=0, hi=1):
@@ -159,6 +209,13 @@ def instances(tier):
         sp = spec('volume', degs, ms, rational=rational)
         out.append(inst('%s hull' % spec_name(sp), h_hull, timeout=2400, sp=sp))
         out.append(inst('%s ends' % spec_name(sp), h_ends, timeout=900, sp=sp))
+    for sp in (spec('curve', (2,), ((1,),), rational=True), spec('curve', (2,), ((1,),), rational=False),
+               spec('surface', (1, 2), ((), ()), rational=True), spec('surface', (2, 1), ((), ()), rational=False),
+               spec('volume', (1, 1, 1), ((), (), ()), rational=True), spec('volume', (1, 1, 1), ((), (), ()), rational=False)):
+        out.append(inst('%s ends after caller edits its list' % spec_name(sp), h_ends, timeout=900, sp=sp, caller_edit=True))
+    for degs, ms, ss, rng in [((2,), ((1, 1),), 5, (F(9, 10), F(1, 10))), ((3,), ((1,),), 4, (F(1), F(0))), ((2,), ((2,),), 4, (F(1, 5), F(4, 5))),
+                              ((1, 2), ((1,), (1,)), 3, (F(0), F(1), F(1), F(0))), ((2, 1), ((), (1, 1)), 3, (F(3, 4), F(1, 4), F(9, 10), F(1, 10)))]:
+        out.append(inst('sampled segment %s inside bbox p%s m%s ss%d' % (tuple(str(x) for x in rng), degs, ms, ss), h_grid_bbox, timeout=900, degs=degs, ms=ms, ss=ss, rng=rng))
     for p in (1, 2, 3):
         sp = spec('curve', (p,), ((1,),), rational=(p != 2), lo=2, hi=5)
         out.append(inst('%s ends' % spec_name(sp), h_ends, sp=sp))
